@@ -25,7 +25,7 @@ Definition show_res (r : option eclass) : string :=
 Definition run_d (c : dcase) : string :=
   let E := mk_env (dc_convs c) (dc_funcs c) (dc_rtl c) in
   let fs := List.map cf_f (dc_funcs c) in
-  let sorted := register_all fs in
+  let sorted := register_all gen_rules fs in
   let o := call_named gen_rules E sorted (dc_args c) in
   "ORDER " ++ show_ids (List.map f_id sorted)
   ++ fold_right (fun e acc => show_event fs (dc_args c) e ++ acc) "" (o_trace o)
@@ -38,6 +38,19 @@ Definition run_line (line : string) : string :=
       | None => "BADCASE"
       | Some l =>
           if String.eqb kind "D" then match p_dcase l with Some c => run_d c | None => "BADCASE" end
+          else if String.eqb kind "H" then
+            match p_hcase l with
+            | Some (rtl, wc, cs, p, a, h) =>
+                let E := mk_env cs [] rtl in
+                match history gen_rules (vbox_of a) h with
+                | inl v => match boxed_cast_v gen_rules E wc p v with
+                           | COk r => "CAST " ++ show_recv (p_form p) (v_box v) r
+                           | CErr e => "ERR(" ++ show_eclass e ++ ")"
+                           end
+                | inr e => "HISTERR(" ++ show_eclass e ++ ")"
+                end
+            | None => "BADCASE"
+            end
           else match p_ccase l with
                | None => "BADCASE"
                | Some (rtl, wc, cs, p, a) =>
